@@ -1,7 +1,7 @@
 (* C09: the monitor the driver runs — Spec/C09Spec.v on the operations of Model/Stack.v,
    Spec/BindSchedSpec.v on the scheduled operations of Model/BindSched.v. *)
 From Verif Require Import Base.Prelude Base.Machine Model.C09Machine.
-From Verif Require Spec.C09Spec Spec.BindSchedSpec Spec.StackXSpec.
+From Verif Require Model.Stack Spec.C09Spec Spec.BindSchedSpec Spec.StackXSpec.
 
 Definition cmst : Type := C09Spec.mst * BindSchedSpec.mst.
 Definition cminit : cmst := (C09Spec.minit, BindSchedSpec.minit).
@@ -11,6 +11,13 @@ Definition cmon (m : cmst) (o : cop) (out : list cobs) : cmst * verdict :=
   | CStack o' =>
       match stack_obs out with
       | Some l => let '(m1, v) := StackXSpec.xmon C09Spec.mon (fst m) o' l in ((m1, snd m), v)
+      | None => (m, [V_BADOBS])
+      end
+  | CWire p =>
+      (* the binding list reported to the peer over the wire is judged like the listing of the
+         registry: exactly the peer's bindings, each with a distinct id *)
+      match stack_obs out with
+      | Some l => let '(m1, v) := C09Spec.mon (fst m) (Stack.ListBinds p) l in ((m1, snd m), v)
       | None => (m, [V_BADOBS])
       end
   | CSched o' =>
